@@ -54,6 +54,10 @@ def water_permittivity(
         T = 298.15 * K
     if P is None:
         P = 1 * bar
+    if units is not None:
+        from ..units import rescale
+
+        T, P = rescale(T, K), rescale(P, bar)
     if U is None:
         U = (
             3.4279e2,
